@@ -10,6 +10,7 @@ import (
 	"strconv"
 	"strings"
 	"unicode"
+	"unicode/utf8"
 )
 
 // ELRule selects what `ESC[K` does while the cursor is in the deferred-wrap state.
@@ -125,16 +126,27 @@ func (v *VT) feed(b byte) {
 	switch v.st {
 	case stGround:
 		if len(v.u8) > 0 || b >= 0x80 {
-			v.u8 = append(v.u8, b)
-			s := string(v.u8)
-			rs := []rune(s)
-			if len(rs) == 1 && rs[0] != unicode.ReplacementChar {
-				v.u8 = v.u8[:0]
-				v.put(rs[0])
-			} else if len(v.u8) >= 4 || (len(rs) > 1) {
+			if len(v.u8) > 0 && b&0xC0 != 0x80 {
+				// a sequence was cut short: the pending bytes are garbage, b starts afresh
 				v.Unknown = append(v.Unknown, fmt.Sprintf("badutf8 %x", v.u8))
 				v.u8 = v.u8[:0]
+				if b < 0x80 {
+					v.feed(b)
+					return
+				}
 			}
+			v.u8 = append(v.u8, b)
+			if !utf8.FullRune(v.u8) {
+				return
+			}
+			r, size := utf8.DecodeRune(v.u8)
+			if r == utf8.RuneError && size <= 1 {
+				v.Unknown = append(v.Unknown, fmt.Sprintf("badutf8 %x", v.u8))
+				v.u8 = v.u8[:0]
+				return
+			}
+			v.u8 = v.u8[:0]
+			v.put(r)
 			return
 		}
 		switch b {
